@@ -192,6 +192,9 @@ func (c *Conn) Idle() bool {
 // (its teardown callbacks have completed).
 func (c *Conn) Idle2() bool { return !c.k.goroutineBusy("conn:" + c.name) }
 
+// LastUnlockStep: the step at which a lal goroutine named after this connection last released a mutex.
+func (c *Conn) LastUnlockStep() int { return c.k.LastUnlockStep("conn:" + c.name) }
+
 // WriterBlocked reports that a lal goroutine is blocked in Write on this connection.
 func (c *Conn) WriterBlocked() bool {
 	c.mu.Lock()
